@@ -1747,9 +1747,52 @@ def _knob_witnesses():
     return out
 
 
+def _reader_witnesses():
+    """Readers that read MORE than the `columns` operand says (read_csv appends the path column and reads at least
+    one data column): the selection of columns computes exactly the selected labels, declared == computed (D114)."""
+    import os
+
+    import dask_expr as dx
+
+    d = os.path.join(_tmpdir(), "csv-path")
+    if not os.path.exists(d):
+        os.makedirs(d)
+        pd.DataFrame({"a": [1, 2, 3], "b": [4, 5, 6], "c": [7, 8, 9]}).to_csv(os.path.join(d, "x1.csv"), index=False)
+        pd.DataFrame({"a": [7, 8], "b": [9, 10], "c": [0, 1]}).to_csv(os.path.join(d, "x2.csv"), index=False)
+    out = []
+    for flag in (True, "src"):
+        pc = "path" if flag is True else flag
+        r = dx.read_csv(os.path.join(d, "x*.csv"), include_path_column=flag)
+        full = e2e.run_or_err(lambda: r.compute())
+        if full[0] == "err":
+            continue
+        for sel in (["a"], [pc], ["c", "a"], [pc, "b"], ["b", pc], "a", pc):
+            label = f"read_csv(include_path_column={flag!r})[{sel!r}]"
+            q = r[sel]
+            got = e2e.run_or_err(lambda: q.compute())
+            if got[0] == "err":
+                out.append((label, "raises", f"{label}: raises {got[1]}: {got[2]}"))
+                continue
+            want = full[1][sel]
+            if _labels(got[1]) != _labels(want):
+                out.append((label, "labels", f"{label}: computed labels {_labels(got[1])}, selected {_labels(want)}"))
+                continue
+            if _labels(q.optimize()._meta) != _labels(want):
+                out.append((label, "labels", f"{label}: optimised plan declares {_labels(q.optimize()._meta)}"))
+                continue
+            if not got[1].astype(str).reset_index(drop=True).equals(want.astype(str).reset_index(drop=True)):
+                out.append((label, "differs", f"{label}: values differ from the selection of the full read"))
+    return out
+
+
 def support(ctx, broken):
     sup = Support()
     seen = set()
+    for label, kind, msg in _reader_witnesses():
+        sup.failures.append(Failure(sig={"site": "ReadCSV", "kind": kind, "case": "path column"},
+                                    case={"witness": "reader", "label": label}, detail=msg))
+    sup.executed += 1
+    sup.count("reader_witnesses")
     for label, kind, msg in _knob_witnesses():
         sup.failures.append(Failure(sig={"site": "Concat._simplify_up", "kind": kind, "case": "knobs"},
                                     case={"witness": "knobs", "label": label}, detail=msg))
@@ -1784,6 +1827,9 @@ def support(ctx, broken):
 
 
 def replay(case):
+    if case.get("witness") == "reader":
+        hits = [w for w in _reader_witnesses() if w[0] == case["label"]]
+        return Failure(sig={"site": "ReadCSV", "kind": hits[0][1], "case": "path column"}, case=case, detail=hits[0][2]) if hits else None
     if case.get("witness") == "knobs":
         hits = [w for w in _knob_witnesses() if w[0] == case["label"]]
         return Failure(sig={"site": "Concat._simplify_up", "kind": hits[0][1], "case": "knobs"}, case=case, detail=hits[0][2]) if hits else None
